@@ -635,14 +635,14 @@ def extra_c20(prop, tier, seed):
 
 def extra_c15_bounded(prop, tier, seed):
     """Bounded stand-in (labelled, never counted): the Position the REAL parser reports for every rejected
-    document made of <= n tokens out of 12 (multi-byte text, comments, CRLF, emoji): index inside the input on
+    document made of <= n tokens out of 14 (multi-byte text, comments with and without a final newline, CRLF, 2-, 3- and 4-byte characters): index inside the input on
     a character boundary, range well-formed, line/column those of the index (recomputed independently)."""
     n = '5' if tier == 'thorough' else '4'
     out, err = _replay(['u3', 'findpos', n])
     if out is None:
         raise engine.Undecided('replay-failed', err)
     res = {'violations': [], 'bounded': [{'check': 'reported parse-error Position (index, range, line, column) of the real parser',
-                                          'bound': '%s tokens out of 12' % n, 'documents': out.get('tried'), 'found': out.get('found')}]}
+                                          'bound': '%s tokens out of 14' % n, 'documents': out.get('tried'), 'found': out.get('found')}]}
     if out.get('found'):
         res['violations'].append({
             'unit': 'U3', 'label': 'convert_pest_error:position-consistent', 'fn': 'convert_pest_error',
